@@ -4,4 +4,4 @@ f=$1; n=$2
 d=/verif/.cache/coqshow; mkdir -p $d
 head -n $((n-1)) "$f" > $d/Show_tmp.v
 echo "Show. Abort." >> $d/Show_tmp.v
-cd /verif/coq && timeout 120 coqc -Q theories Portus -Q gen PortusGen -Q Properties PortusProps $d/Show_tmp.v 2>&1 | tail -${3:-40}
+cd /verif/coq && timeout 120 coqc -Q theories Portus -Q gen PortusGen -Q Properties PortusProps -Q extract PortusExtract $d/Show_tmp.v 2>&1 | tail -${3:-40}
